@@ -1286,15 +1286,65 @@ class Facts:
                         if t['t'] is None or t['t'] < 0 or len(t['d']) == 0 or n_inlined >= 12:
                             left.add(t['fn'])
                         else:
+                            if not hasattr(self, '_inlined_into'):
+                                self._inlined_into = {}
+                            self._inlined_into.setdefault(t['fn'], set()).add(name)
                             self._inline_call(f, bi, self.fns[t['fn']], copy)
                             n_inlined += 1
                     bi += 1
             for h in leaf - left:
+                self._reparent_closures(h)
                 self.fns.pop(h, None)
                 self.new_fns.discard(h)
             self.new_fns -= left & leaf  # could not be inlined everywhere: stays a (transparent) function
             if left & leaf:
                 self.new_fns |= set()  # keep semantics explicit
+
+    def _reparent_closures(self, helper):
+        """the closures of a helper that was inlined everywhere belong to its (single) caller from now on: they get the caller's
+        name and the next free closure indices, so rules that speak of `Caller::{closure}` keep applying"""
+        cl = sorted(n for n in self.fns if n.startswith(helper + '::{closure'))
+        if not cl:
+            return
+        callers = getattr(self, '_inlined_into', {}).get(helper, set())
+        if len(callers) != 1:
+            return
+        caller = next(iter(callers)).split('::{closure')[0]
+        used = set()
+        for n in self.fns:
+            m = re.match(re.escape(caller) + r'::\{closure#(\d+)\}$', n)
+            if m:
+                used.add(int(m.group(1)))
+        ren = {}
+        nxt = 0
+        for n in cl:
+            if re.match(re.escape(helper) + r'::\{closure#\d+\}$', n):
+                while nxt in used:
+                    nxt += 1
+                used.add(nxt)
+                ren[n] = '%s::{closure#%d}' % (caller, nxt)
+        # nested closures follow their parent
+        for n in cl:
+            for old, new in list(ren.items()):
+                if n.startswith(old + '::'):
+                    ren[n] = new + n[len(old):]
+        for old, new in ren.items():
+            g = self.fns.pop(old)
+            g.name = new
+            g.parent = ren.get(g.parent, caller if g.parent == helper else g.parent)
+            self.fns[new] = g
+        for f in self.fns.values():
+            for b in f.blocks:
+                for st in b['s']:
+                    rv = st[1]
+                    if rv[0] == 'aggr' and rv[1] in ('closure', 'coroutine') and self.norm(rv[2]) in ren:
+                        rv[2] = ren[self.norm(rv[2])]
+                t = b['t']
+                if t['k'] == 'call':
+                    for key in ('fn', 'ofn'):
+                        if t.get(key) in ren:
+                            t[key] = ren[t[key]]
+                    t['cls'] = [ren.get(c, c) for c in t.get('cls', [])]
 
     @staticmethod
     def _inline_call(f, bi, g, copy):
